@@ -33,6 +33,7 @@ var spxProps = map[string][]string{
 	"C18": {"S1", "S6"},
 	"C02": {"S5", "S8"},
 	"C07": {"S8"},
+	"C11": {"S7"},
 	"C12": {"S5", "S6", "S7", "S8", "S11"},
 }
 
@@ -99,6 +100,7 @@ func spxFuncExec(sc *spxScenario, prefix []int, prop string) spxOutcome {
 	x := sc.Build()
 	if x.cl != nil && len(x.cl.Conns) > 0 {
 		x.mark = len(x.cl.Conns[0].Out)
+		x.markStreams = len(x.cl.Conns[0].Order)
 	}
 	x.start()
 	dbg := os.Getenv("VERIF_SPX_TRACE") != ""
@@ -498,6 +500,59 @@ func spxClientRules(x *spxInst, sc *spxScenario, prop string, add func(rule, sha
 				add("response-from-nowhere", "", fmt.Sprintf("caller %s (stream %d) reports success with body %q although the server never answered that stream", cl.Tag, sid, cl.Body))
 			} else if string(cl.Body) != want || cl.Status != 200 {
 				add("wrong-response-delivered", "", fmt.Sprintf("caller %s (stream %d) got %d %q, the server sent 200 %q on that stream", cl.Tag, sid, cl.Status, cl.Body, want))
+			}
+		}
+	case "C11":
+		// S7: GOAWAY(last-stream-id 1) on connection 0 after the first request of the phase; a second connection answers
+		sent := map[string][]string{} // path -> "conn/stream" list
+		for ci, sc := range h.Conns {
+			for _, id := range sc.Order {
+				p := hdrVal(sc.Streams[id].Fields, ":path")
+				sent[p] = append(sent[p], fmt.Sprintf("%d/%d", ci, id))
+			}
+		}
+		goAwayRan := false
+		for _, st := range x.steps("inject") {
+			fs, _ := peer.Parse(st.Bytes)
+			for _, f := range fs {
+				if f.Type == peer.TGoAway && st.Ran {
+					goAwayRan = true
+				}
+			}
+		}
+		for _, cl := range h.Calls {
+			if cl.Tag == "warm" {
+				continue
+			}
+			where := sent["/"+cl.Tag]
+			onZero, onOne := 0, 0
+			var oneID uint32
+			for _, w := range where {
+				var ci int
+				var id uint32
+				fmt.Sscanf(w, "%d/%d", &ci, &id)
+				if ci == 0 {
+					onZero++
+				} else {
+					onOne++
+					oneID = id
+				}
+			}
+			if onZero > 1 || onOne > 1 {
+				add("request-sent-twice", "", fmt.Sprintf("request %s reached the servers on %v", cl.Tag, where))
+			}
+			if cl.Done && cl.Err == nil {
+				// connection 0 never answers in this harness: a success must come from connection 1
+				want := map[uint32]string{1: "n1", 3: "n2"}[oneID]
+				if onOne == 0 || string(cl.Body) != want {
+					add("disclaimed-request-succeeded", "", fmt.Sprintf("request %s reports success with body %q; it was sent on %v and connection 0 disclaimed everything above stream 1", cl.Tag, cl.Body, where))
+				}
+			}
+		}
+		if goAwayRan && len(h.Conns) > 0 {
+			// nothing new on the connection once the GOAWAY has been read: streams opened on it are bounded by what was in flight
+			if n := len(h.Conns[0].Order) - x.markStreams; n > 2 {
+				add("new-stream-after-goaway", "", fmt.Sprintf("%d streams opened on the connection during the phase", n))
 			}
 		}
 	case "C07":
